@@ -61,6 +61,11 @@ type result struct {
 // execute runs one execution to quiescence (without judging).
 func execute(e *rt.Entry, sc *prog.Scenario, id uint64, quiet bool, setCur bool) *rt.Exec {
 	x := rt.NewExec(id, e.Prog, sc, quiet)
+	x.Limit = limitOf(effConc(e.Prog, sc))
+	x.MaxJobs = 2*len(e.Prog.AllFns()) + 2
+	for _, c := range sc.Colls {
+		x.MaxJobs += len(c)
+	}
 	if setCur {
 		rt.SetCurrent(x)
 	}
@@ -116,6 +121,10 @@ func execute(e *rt.Entry, sc *prog.Scenario, id uint64, quiet bool, setCur bool)
 		}()
 	case "":
 		x.OpenGate()
+	case "report":
+		if quiet {
+			x.OpenGate() // race builds have no recording emitter to open it
+		}
 	}
 	func() {
 		defer func() {
@@ -305,6 +314,8 @@ func applicable(p *prog.Program, tag string) bool {
 	switch tag {
 	case "pred", "predgate":
 		return p.HasFeature("predicate")
+	case "state":
+		return p.HasFeature("emitters")
 	}
 	return true
 }
@@ -506,6 +517,7 @@ func account(b *Batch, distinct map[string]map[uint64]struct{}, e *rt.Entry, sc 
 		"C11": p.HasFeature("predicate") || p.HasFeature("fallback"),
 		"C15": (p.Wrap || p.Bare) && p.NumSites >= 3,
 		"C18": len(x.Emits()) > 0,
+		"C19": x.SchedStates() > 0,
 	}
 	for prop, ok := range nt {
 		if ok {
